@@ -355,6 +355,43 @@ static void barrier_intruder(void)
     CHK(ABT_task_create(g_pools[rnd(g_nes)], barrier_tasklet, NULL, &t));
     CHK(ABT_thread_free(&t));
 }
+/* Execution-stream barrier: the waiter blocks its whole stream (or external thread), so at
+ * most one ULT / tasklet waiter per secondary stream; the rest are external threads. */
+static ABT_xstream_barrier g_xbar;
+static void xbarrier_body(caller_t *c)
+{
+    for (int k = 0; k < c->x[1]; k++) {
+        if (c->kind == K_ULT && ((c->x[2] >> k) & 1))
+            ABT_thread_yield();
+        EV("\"e\":\"BarCall\",\"t\":%d,\"k\":%d", c->id, k);
+        CHK(ABT_xstream_barrier_wait(g_xbar));
+        EV("\"e\":\"BarRet\",\"t\":%d,\"k\":%d", c->id, k);
+    }
+}
+static void scn_xbarrier(void)
+{
+    int nult = g_nes > 1 ? rnd(g_nes) : 0;
+    int next = rnd(3);
+    if (nult + next == 0)
+        next = 1;
+    int n = nult + next, rounds = 1 + rnd(3);
+    CHK(ABT_xstream_barrier_create((uint32_t)n, &g_xbar));
+    g_nc = n;
+    for (int i = 0; i < n; i++) {
+        caller_t *c = &g_c[i];
+        memset(c, 0, sizeof *c);
+        c->id = i + 1;
+        c->kind = i < nult ? (rnd(4) == 0 ? K_TASK : K_ULT) : K_EXT;
+        c->es = i < nult ? 1 + i : 0;
+        c->body = xbarrier_body;
+        c->x[1] = rounds;
+        c->x[2] = rnd(8);
+    }
+    EV("\"e\":\"Barrier\",\"n\":%d", n);
+    callers_launch(32768);
+    callers_join();
+    CHK(ABT_xstream_barrier_free(&g_xbar));
+}
 static void scn_barrier(void)
 {
     int n = 1 + rnd(4);
@@ -631,6 +668,8 @@ static void scenario(const char *name, uint64_t seed)
         scn_cond(1);
     else if (!strcmp(name, "barrier"))
         scn_barrier();
+    else if (!strcmp(name, "xbarrier"))
+        scn_xbarrier();
     else if (!strcmp(name, "eventual"))
         scn_eventual();
     else if (!strcmp(name, "future"))
